@@ -351,6 +351,7 @@ class Inliner:
         self.objclasses = {}       # unknown plain classes: name -> ClassDef
         self.dissolved = set()
         self.objs = {}             # object locals of the host being processed: var -> class
+        self.local_funcs = {}      # closures defined in the host being processed (unknown): name -> def
         self.records = _record_types(tree, known)
         self._collect()
         self.unique_methods = self._unique_methods()
@@ -452,6 +453,8 @@ class Inliner:
     def _resolve_any(self, call, host):
         fn, cls, shadow = host
         f = call.func
+        if isinstance(f, ast.Name) and f.id in self.local_funcs:
+            return self.local_funcs[f.id], None
         if isinstance(f, ast.Name) and f.id in self.funcs and f.id not in shadow:
             return self.funcs[f.id], None
         if isinstance(f, ast.Name) and f.id in self.objs:
@@ -473,7 +476,7 @@ class Inliner:
 
     # -- driver
     def run(self):
-        if not self.funcs and not self.methods:
+        if not self.funcs and not self.methods and not self._has_new_closures():
             # nothing to inline; loops over a literal are still written out
             for n in ast.walk(self.tree):
                 if isinstance(n, ast.FunctionDef) and _has_literal_loop(n):
@@ -491,6 +494,27 @@ class Inliner:
         ast.fix_missing_locations(self.tree)
         return self.tree
 
+    def _has_new_closures(self):
+        kf = set(self.known.get('functions', ()))
+
+        def scan(fn, qual):
+            for n in _stmts_walk(fn.body):
+                if isinstance(n, ast.FunctionDef):
+                    q = '%s.%s' % (qual, n.name)
+                    if q not in kf:
+                        return True
+                    if scan(n, q):
+                        return True
+            return False
+        for st in self.tree.body:
+            if isinstance(st, ast.FunctionDef) and scan(st, st.name):
+                return True
+            if isinstance(st, ast.ClassDef):
+                for s2 in st.body:
+                    if isinstance(s2, ast.FunctionDef) and scan(s2, '%s.%s' % (st.name, s2.name)):
+                        return True
+        return False
+
     def _host(self, fn, cls):
         is_helper = any(fn is h for h in list(self.funcs.values()) + list(self.methods.values()))
         self._host_fn(fn, cls, (fn,) if is_helper else ())
@@ -505,6 +529,25 @@ class Inliner:
         before = len(self.inlined)
         outer_renames, self.renames = self.renames, []
         hostname = fn.name if cls is None else '%s.%s' % (cls, fn.name)
+        # closures introduced by the edit: defined in this function, only ever called directly
+        outer_local, self.local_funcs = self.local_funcs, dict(self.local_funcs)
+        kf = set(self.known.get('functions', ()))
+        qual = getattr(fn, '_qual', hostname)
+        nested = [n for n in _stmts_walk(fn.body) if isinstance(n, ast.FunctionDef)]
+        for nd in nested:
+            nd._qual = '%s.%s' % (qual, nd.name)
+            if nd._qual in kf or any(nd is x for x in stack):
+                continue
+            refs = [n for n in ast.walk(fn) if isinstance(n, ast.Name) and n.id == nd.name]
+            called = {id(c.func) for c in ast.walk(fn) if isinstance(c, ast.Call)}
+            stores = [n for n in refs if not isinstance(n.ctx, ast.Load)]
+            if stores or not refs or any(id(r) not in called for r in refs):
+                continue
+            if any(isinstance(x, (ast.Yield, ast.YieldFrom)) for x in _stmts_walk(nd.body)):
+                continue
+            # the closure must not bind a name that it also reads from the host (late binding)
+            if self._eligible(nd, nd._qual):
+                self.local_funcs[nd.name] = nd
         self._expr_helpers(fn, host, hostname, stack)
         fn.body = self._stmts(fn.body, host, names, stack, fn.name if cls is None else
                               '%s.%s' % (cls, fn.name))
@@ -522,6 +565,14 @@ class Inliner:
         for n in _stmts_walk(fn.body):
             if isinstance(n, ast.FunctionDef):
                 self._host_fn(n, None, stack)
+        # closures whose every call was inlined are gone
+        for nm, nd in list(self.local_funcs.items()):
+            if nm in outer_local and outer_local[nm] is nd:
+                continue
+            if not any(isinstance(n, ast.Name) and n.id == nm for n in ast.walk(fn)):
+                for blk in _blocks(fn.body):
+                    blk[:] = [x for x in blk if x is not nd] or [ast.Pass()]
+        self.local_funcs = outer_local
         if len(self.inlined) > before or _has_literal_loop(fn):
             _simplify_function(fn, self.records)
             _coalesce(fn, self.renames)
@@ -1805,9 +1856,11 @@ def _propagate_unrolled(fn):
                 for k in list(env):
                     if k in killed or (_names_in(env[k]) & killed):
                         del env[k]
-                if isinstance(st, (ast.For, ast.While)) and env:
-                    # a binding that the loop does not touch is invariant inside the loop
-                    subst_expr_field(st, 'iter' if isinstance(st, ast.For) else 'test', env)
+                if isinstance(st, (ast.For, ast.While)):
+                    # a binding that the loop does not touch is invariant inside the loop; the
+                    # bindings made inside the body are propagated within the body
+                    if env:
+                        subst_expr_field(st, 'iter' if isinstance(st, ast.For) else 'test', env)
                     block(st.body, env)
                     block(st.orelse, env)
                 continue
